@@ -235,7 +235,7 @@ def run(ctx):
                   texts, stamps, 0, eff, ts, True, {"corpus": name}, key=c.get("key"), how="corpus")
 
     # ---- stream 1: real FileSinks around the limit
-    n1 = ctx.n(700, 25000) * boost
+    n1 = ctx.n(2500, 30000) * boost
     for i in range(n1):
         encoding = rng.choice(["utf8", "utf8", "utf8", "latin-1", "utf-16-le"])
         if encoding == "latin-1":
@@ -314,11 +314,13 @@ def run(ctx):
                           {"stream": "size", "text": s, "expected": str(want)})
         plines.append("size " + enc(s))
         pexp.append((s, r, want))
-    alpha = ["1", "0", "5", ".", " ", "e", "E", "-", "+", "k", "K", "m", "g", "i", "I", "b", "B", "kb", "MiB", "1.5", "z", "y",
-             "\t", "x", "d", "h"]
+    alpha = ["1", "0", "5", ".", " ", "e", "E", "-", "+", "k", "K", "m", "g", "i", "I", "b", "B", "b", "B", "kb", "MiB", "1.5",
+             "z", "y", "\t", "x", "d", "h"]
     alines, aexp = [], []
     for i in range(ctx.n(2000, 80000)):
         s = "".join(rng.choice(alpha) for _ in range(rng.range(1, 6)))
+        if rng.chance(60):
+            s = rng.choice(["1", "12", "1.5", "1e3", "+2", ".5", "1.", "1e", "-1", "1.2.3", "e1"]) + s
         try:
             r = sp.parse_size(s)
             e = "none" if r is None else ("num", r)
